@@ -526,9 +526,22 @@ func scenarios(alpha []calls.Call, tier string) (hist, conc []Scenario) {
 		}
 		rec3(nil)
 	}
-	// concurrent: every ordered pair of calls on two threads (cold and warm)
+	// concurrent: every ordered pair of calls on two threads (cold and warm). The three calls that walk more than a
+	// thousand containers or members take part in every history above; on two threads they are paired with each other
+	// and with two small calls (quick), and with every call (thorough).
+	heavy := map[int]bool{}
+	for _, i := range pick(alpha, "failing below 1005 tracked containers", "same tracked containers with AllowInvalidUTF8", "Canonicalize of a 1300-member object") {
+		heavy[i] = true
+	}
+	partners := map[int]bool{}
+	for _, i := range pick(alpha, "Marshal(small struct)", "Value.Canonicalize + Compact + Indent") {
+		partners[i] = true
+	}
 	for a := 0; a < n; a++ {
 		for b := a; b < n; b++ {
+			if tier != "thorough" && (heavy[a] || heavy[b]) && !((heavy[a] || partners[a]) && (heavy[b] || partners[b])) {
+				continue
+			}
 			conc = append(conc, Scenario{Threads: [][]int{{a}, {b}}}, Scenario{Threads: [][]int{{a}, {b}}, Warm: true})
 		}
 	}
